@@ -581,6 +581,9 @@ func (rr *rpcRun) run() {
 	}
 	rr.res.SimNanos = int64(w.Now())
 	rr.res.Steps = w.Steps
+	for k, v := range w.Probes() {
+		rr.res.Stats[k] += int64(v)
+	}
 	rr.res.Shape = hashStrings(rr.shape)
 	rr.res.Nontrivial = len(rr.ops) > 0
 	rr.res.stat("rpc_ops", int64(len(rr.ops)))
